@@ -20,6 +20,24 @@ type TCPConn = net.TCPConn
 type TCPAddr = net.TCPAddr
 type IP = net.IP
 type Error = net.Error
+type IPNet = net.IPNet
+type IPMask = net.IPMask
+type UnixAddr = net.UnixAddr
+type UDPAddr = net.UDPAddr
+type OpError = net.OpError
+type AddrError = net.AddrError
+
+// pure functions of "net" (no I/O): passed through
+var (
+	SplitHostPort = net.SplitHostPort
+	JoinHostPort  = net.JoinHostPort
+	ParseIP       = net.ParseIP
+	ParseCIDR     = net.ParseCIDR
+	IPv4          = net.IPv4
+	CIDRMask      = net.CIDRMask
+	IPv4Mask      = net.IPv4Mask
+	ParseMAC      = net.ParseMAC
+)
 
 type addr string
 
